@@ -127,7 +127,21 @@ fn queue_file_range(
         let off = range.start + (blkn * bsize);
 
         pool.execute(move || {
-            let copy_result = copy_file_offset(&harc.infd, &harc.outfd, bytes, off as i64);
+            // The kernel may copy less than requested (it does beyond
+            // 2GiB per call), so repeat until the block is complete
+            // or the end of the file is reached (extents can extend
+            // past it).
+            let copy_result = (|| -> std::result::Result<usize, libfs::Error> {
+                let mut copied = 0;
+                while copied < bytes {
+                    let n = copy_file_offset(&harc.infd, &harc.outfd, bytes - copied, (off + copied) as i64)? as u64;
+                    if n == 0 {
+                        break;
+                    }
+                    copied += n;
+                }
+                Ok(copied as usize)
+            })();
             let stat_result = match copy_result {
                 Ok(bytes) => {
                     stat_tx.send(StatusUpdate::Copied(bytes as u64))
